@@ -45,6 +45,7 @@ EPS = 2.3e-16
 BIG = 1 << 14
 CLUSTERS = ("NN", "NN+", "NN++", "NNN", "NNN+", "NNN++")
 BPKINDS = ("BP", "NN+BP", "NNN+BP")
+SVD1_CLUSTERS = ("NN+", "NN++", "NNN++")       # clusters whose borders are rank-one (SVD-1) approximations
 SETUPS = ("lrtb", "tlbr", "rltb", "btrl", "lr", "rl", "tb", "bt", "l", "r", "t", "b", "lrt", "tbl")
 VAL_TOL = 2e-11          # |value - dense| <= VAL_TOL * prod ||O_i||   (observed <= ~1e-14)
 HERM_TOL = 1e-11         # ||g - g^H|| / (2 ||g||)                       (observed <= ~3e-16)
@@ -139,6 +140,11 @@ def draw_state(ctx, rng, nprng, lattices, kinds=("rand", "rand", "circuit", "pur
         x = fr.dense(psi)
         if np.count_nonzero(np.abs(x) > 1e-14 * max(np.abs(x).max(), 1e-300)) < 2:
             continue
+        S = 1.0
+        for s in psi.sites():
+            S *= float(psi[s].norm())
+        if float(np.linalg.norm(x)) < 1e-4 * S:        # numerically tiny against the contraction round-off
+            continue
         desc = {"family": [F.cls, F.sym], "lattice": list(dims), "state": kind, "circuit": hist,
                 "bond_dims": sorted(set(psi.get_bond_dimensions().values()))}
         if F.fermionic:
@@ -222,6 +228,15 @@ class Battery:
         self.nontrivial = False
         self.nrm = {k: float(np.linalg.norm(m, 2)) for k, m in F.mat.items()}
         self._cache = {}
+        # <O> = val_op / val_no: both carry contraction round-off ~ eps * prod ||A_s||^2, so the quotient is only as
+        # accurate as eps * (prod ||A_s|| / ||psi||)^2; widen the tolerance when the state is small against its tensors
+        S = 1.0
+        for s in psi.sites():
+            S *= float(psi[s].norm())
+        self.amp = max(1.0, (1e-2 * S / max(float(np.linalg.norm(x)), 1e-300)) ** 2)
+
+    def tol(self, names):
+        return VAL_TOL * self.amp * max(1.0, float(np.prod([self.nrm[n] for n in names])))
 
     def dense(self, names, sites):
         key = (tuple(names), tuple(sites))
@@ -266,7 +281,7 @@ class Battery:
             ctx.violation(f"result-type:{self.envname}.{fn}", f"{fn} returned {type(got).__name__}")
             return False
         err = abs(got - exp)
-        ok = ctx.margin(f"{self.envname}.{fn}", err, VAL_TOL * scale * tol_scale)
+        ok = ctx.margin(f"{self.envname}.{fn}", err, VAL_TOL * scale * tol_scale * self.amp)
         if not ok:
             key = f"value:{self.envname}.{fn}{key_extra}:" + ("odd" if odd else "even") + ":" + order
             ctx.violation(key, f"{self.envname}.{fn}({', '.join(names)}) at {list(sites)} = {got} but dense <psi|O|psi>/<psi|psi> = {exp} "
@@ -387,12 +402,12 @@ def battery_bmps(ctx, idx, rng, nprng, lattices):
             return
         got = env.measure_nsite(*[o[n] for n in names], sites=sites)
         exp = B.dense(names, sites)
-        if abs(complex(got) - exp) > VAL_TOL * max(1.0, float(np.prod([B.nrm[n] for n in names]))):
+        if abs(complex(got) - exp) > B.tol(names):
             # internal default D_total (largest bond of the stored boundary vectors) may bind inside zipper:
             env.xrange, env.yrange = (0, Nx), (min(cols), max(cols) + 1)
             got2 = _measure_nsite(env, *[o[n] for n in names], sites=sites, dirn="lr", opts_svd=dict(opts))
             ctx.count("nsite_default_truncation_suspected")
-            if abs(complex(got2) - exp) <= VAL_TOL * max(1.0, float(np.prod([B.nrm[n] for n in names]))):
+            if abs(complex(got2) - exp) <= B.tol(names):
                 ctx.count("nsite_default_truncation_binding:EnvBoundaryMPS")
                 ctx.count("fn:EnvBoundaryMPS.measure_nsite")
                 return
@@ -548,7 +563,7 @@ def battery_ctm(ctx, idx, rng, nprng, lattices):
                 B.judge("measure_nsite_exact", names, sites, v)
         got = env.measure_nsite(*ops, sites=sites)
         exp = B.dense(names, sites)
-        lim = VAL_TOL * max(1.0, float(np.prod([B.nrm[n] for n in names])))
+        lim = B.tol(names)
         if abs(complex(got) - exp) > lim:
             xr, yr = (xs[0], xs[-1] + 1), (ys[0], ys[-1] + 1)
             win = EnvWindow(env, xr, yr)
@@ -623,11 +638,15 @@ def judge_metric(ctx, gm, which, where, desc, envname="EnvNTU"):
         ctx.violation(f"metric-degenerate:{envname}:{which}", f"bond metric {which} at {where} has norm {nrm}", desc)
         return False
     if nrm == 0:
-        # the SVD-1 hairs of the '+' clusters keep one charge sector each; on sparse symmetric states their product can
-        # vanish identically.  A zero matrix is Hermitian and PSD: counted, not judged.
-        ctx.count("metric_identically_zero")
-        ctx.count("metric_identically_zero:" + which)
-        return True
+        # NN+, NN++, NNN++ replace border tensors by SVD-1 hairs (cut_into_hairs, D_total=1), each living in ONE charge
+        # sector; on sparse symmetric states the product of such hairs can vanish identically.  A zero matrix is Hermitian
+        # and PSD, so this is counted, not judged.  The exactly contracted clusters can only vanish if the state does.
+        if which in SVD1_CLUSTERS:
+            ctx.count("metric_identically_zero")
+            ctx.count("metric_identically_zero:" + which)
+            return True
+        ctx.violation(f"metric-degenerate:{envname}:{which}", f"exactly contracted bond metric {which} at {where} is identically zero", desc)
+        return False
     ah = float(np.linalg.norm(M - M.conj().T)) / (2 * nrm)
     ew = np.linalg.eigvalsh((M + M.conj().T) / 2)
     neg = max(0.0, -float(ew.min())) / nrm
@@ -750,24 +769,19 @@ def battery_evol(ctx, idx, rng, nprng, lattices):
             ctx.count("raises:EnvCTM.evolution:bond-dimension-changed")
             raise CaseSkip
         raise
-    except (ValueError, ZeroDivisionError, FloatingPointError) as e:
-        # specific mechanism: the cluster metric vanishes identically (see judge_metric) and the truncation code divides by it
-        zb = zero_metric_bond(env, psi, gates, g) if envkind == "NTU" else None
+    except (ValueError, ZeroDivisionError, FloatingPointError):
+        # premise of the evolution clause: a usable metric.  The SVD-1 clusters can return an identically zero metric
+        # (see judge_metric) and truncate_ then divides by its norm; such steps are counted, not judged.
+        zb = zero_metric_bond(env, psi, gates, g) if (envkind == "NTU" and which in SVD1_CLUSTERS) else None
         if zb is None:
             raise
-        ctx.violation(f"evolution:zero-metric:{tag}", f"evolution_step_ ({tag}) raised {type(e).__name__}({e}): the bond metric of "
-                      f"{zb[0]}-{zb[1]} is identically zero", d)
-        ctx.count("evolution_zero_metric")
-        return
+        ctx.count("evolution_zero_metric_not_judged")
+        raise CaseSkip
     y = fr.dense(psi)
     err = overlap_error(ref, y)
-    if not (err <= STATE_TOL) and envkind == "NTU":
-        zb = zero_metric_bond(env, psi, gates, g)
-        if zb is not None:
-            ctx.violation(f"evolution:zero-metric:{tag}", f"evolution_step_ ({tag}): state error {err:.3e}; the bond metric of {zb[0]}-{zb[1]} "
-                          f"is identically zero", d)
-            ctx.count("evolution_zero_metric")
-            return
+    if not (err <= STATE_TOL) and envkind == "NTU" and which in SVD1_CLUSTERS and zero_metric_bond(env, psi, gates, g) is not None:
+        ctx.count("evolution_zero_metric_not_judged")
+        raise CaseSkip
     if not ctx.margin("evolution:state", err, STATE_TOL):
         ctx.violation(f"evolution:state-changed:{tag}:{method}", f"evolution_step_ ({tag}, method={method}, init={init}) with non-binding D_total: "
                       f"state differs from the exactly evolved one by {err:.3e} (relative, up to normalisation)", d)
@@ -858,4 +872,5 @@ def finalize(cov, merged):
     cov["documented_restrictions_counted"] = {k[7:]: int(v) for k, v in sorted(c.items()) if k.startswith("raises:")}
     cov["metrics_by_cluster"] = {k[7:]: int(v) for k, v in sorted(c.items()) if k.startswith("metric:")}
     cov["evolution_by_environment"] = {k[5:]: int(v) for k, v in sorted(c.items()) if k.startswith("evol:")}
-    cov["not_judged"] = {k: int(v) for k, v in sorted(c.items()) if k.startswith("nsite_default_truncation")}
+    cov["not_judged"] = {k: int(v) for k, v in sorted(c.items()) if k.startswith("nsite_default_truncation") or
+                         k.startswith("metric_identically_zero") or k.startswith("evolution_zero_metric")}
